@@ -1,20 +1,13 @@
-"""Per-property configuration of the generic check (tools/vlib.py)."""
+"""Per-property configuration of the checks: one module tools/propcfg/cXX.py per property, each
+defining CFG (a dict for vlib.generic_check, or with a 'custom' callable)."""
+import glob, importlib.util, os
 
-PROPS = {
-    "C20": dict(
-        id="C20", props="Props/C20.v", harness="c20", shims=["winapi_verif.go"],
-        trusted_base=[
-            "Go's []rune(string) conversion (UTF-8 decoder) and unicode/utf16, hash/fnv used as reference oracles",
-            "registry values are modelled as little-endian byte pairs (amd64); the unsafe cast itself is not modelled, only its index arithmetic",
-        ],
-        assumptions=["runes are arbitrary int32 values; UTF-16 units arbitrary uint16 values"],
-        level_text="Ten theorems over the Gallina model of utf16Encode/UTF16EncodeStd/UTF16Decode/FnvHash/Entry.To* for ALL rune and unit "
-                   "sequences (standard encoding + one terminator, NUL rejection, decode∘encode = id, decoding stops at the first NUL, registry reads in bounds, "
-                   "FNV-1 recurrence); the model is tied to /repo by running ~13k generated cases (exhaustive over rune classes up to length 3/4) through the "
-                   "real functions and through the model inside Coq, plus unicode/utf16 and hash/fnv as Go-side oracles.",
-        level_note="Proof is about the model; the tie to the code is differential (its strength is that of the generator, distribution in the evidence). "
-                   "Trusted: Coq kernel+vm_compute, Go's []rune(string), the harness. No axioms.",
-    ),
-}
-
+PROPS = {}
 NOT_APPLICABLE = {}
+_d = os.path.join(os.path.dirname(os.path.abspath(__file__)), "propcfg")
+for _p in sorted(glob.glob(os.path.join(_d, "c*.py"))):
+    _spec = importlib.util.spec_from_file_location("propcfg_" + os.path.basename(_p)[:-3], _p)
+    _m = importlib.util.module_from_spec(_spec)
+    _spec.loader.exec_module(_m)
+    if getattr(_m, "ENABLED", True):
+        PROPS[_m.CFG["id"]] = _m.CFG
